@@ -287,6 +287,7 @@ TALPHA = 'aBbA?*~.[(d\\+ x'
 def _trace_job(seeds):
     try:
         p = probe()
+        ev = p.session().eval if seeds and (seeds[0] // 200) % 2 else p.eval       # every second batch: ONE Executor for the whole sequence
         out = []
         for sd in seeds:
             rng = random.Random(sd)
@@ -294,11 +295,11 @@ def _trace_job(seeds):
             x = rng.random()
             if x < 0.45:
                 nn, kk = rng.randint(-2, 12), rng.randint(-2, 12)
-                res = p.eval([(0, 0, 0, t), (0, 1, 0, nn), (0, 2, 0, kk)], idxs=(0, 1, 2))
+                res = ev([(0, 0, 0, t), (0, 1, 0, nn), (0, 2, 0, kk)], idxs=(0, 1, 2))
                 for f, a, r in (('LEFT', [nn], res[0]), ('RIGHT', [nn], res[1]), ('MID', [kk, nn], res[2])):
                     out.append({'f': f, 't': t, 'p': '', 'a': a, 'obs': obs_of(*r)})
                 if 0 <= nn < len(t):
-                    r = p.eval([(0, 0, 0, t), (0, 1, 0, nn), (0, 2, 0, len(t))], idxs=(7,))[0]
+                    r = ev([(0, 0, 0, t), (0, 1, 0, nn), (0, 2, 0, len(t))], idxs=(7,))[0]
                     out.append({'f': 'REBUILD', 't': t, 'p': '', 'a': [nn], 'obs': obs_of(*r)})
             else:
                 # patterns cut from the text itself (so that matches exist), with wildcards and case changes injected
@@ -310,7 +311,7 @@ def _trace_job(seeds):
                     pat[j] = rng.choice(['?', '*', pat[j].swapcase()])
                 pat = ''.join(pat) if rng.random() < 0.9 else ''.join(rng.choice('aB?*.') for _ in range(rng.randint(1, 3)))
                 s = rng.randint(0, len(t) + 1)
-                r = p.eval([(0, 0, 0, t), (0, 3, 0, pat), (0, 1, 0, s)], idxs=(5,))[0]
+                r = ev([(0, 0, 0, t), (0, 3, 0, pat), (0, 1, 0, s)], idxs=(5,))[0]
                 out.append({'f': 'SEARCH', 't': t, 'p': pat, 'a': [s], 'obs': obs_of(*r)})
         return out
     except Exception as e:
